@@ -6,7 +6,7 @@ import sys, os, json, subprocess, concurrent.futures as cf, time, shutil
 V = os.path.dirname(os.path.abspath(__file__))
 ENV = dict(os.environ, GOFLAGS="-mod=mod", GOPROXY="off", GOSUMDB="off", GOTOOLCHAIN="local")
 ids = sys.argv[1:] or sorted(d for d in os.listdir(os.path.join(V, "seeded")) if os.path.isdir(os.path.join(V, "seeded", d)))
-base = "/tmp/verif-seedall"
+base = os.environ.get("SEEDALL_BASE", "/tmp/verif-seedall")
 os.makedirs(base, exist_ok=True)
 head = subprocess.run(["git", "-C", "/repo", "rev-parse", "--short", "HEAD"], capture_output=True, text=True).stdout.strip()
 
@@ -46,12 +46,14 @@ def one(sid):
         shutil.rmtree(os.path.join(base, "evidence-" + sid), ignore_errors=True)
 
 rows = []
-with cf.ThreadPoolExecutor(max_workers=3) as ex:
+with cf.ThreadPoolExecutor(max_workers=int(os.environ.get('SEEDALL_WORKERS','3'))) as ex:
     for sid, status, res in ex.map(one, ids):
         det = [p for p, rc, _, _ in res if rc == 1]
         print(sid, status, "DETECTED by " + ",".join(det) if det else ("NOT DETECTED " + str([(p, rc) for p, rc, _, _ in res]) if status == "ok" else ""), flush=True)
         rows.append((sid, status, res))
 shutil.rmtree(base, ignore_errors=True)
+if os.environ.get("SEEDALL_JSON"):
+    json.dump(rows, open(os.environ["SEEDALL_JSON"], "w"))
 if not sys.argv[1:]:
     with open(os.path.join(V, "seeded", "REGRESSION.md"), "w") as f:
         f.write("# Seeded changes re-run against /repo HEAD %s (quick tier, scratch worktrees)\n\n| seed | result | first violated assertion |\n|---|---|---|\n" % head)
